@@ -35,13 +35,27 @@ FUNCS = {
     "math.sqrt": __import__("math").sqrt, "math.sin": __import__("math").sin, "math.cos": __import__("math").cos,
     "builtins.complex": complex, "numpy.copy": np.copy, "numpy.eye": np.eye, "numpy.diag": np.diag,
 }
+for _n in ("einsum", "tensordot", "take_along_axis", "take", "cumsum", "cross", "vdot", "inner", "outer", "multiply", "add", "subtract", "divide",
+           "true_divide", "nan_to_num", "clip", "minimum", "maximum", "stack", "concatenate", "hstack", "vstack", "column_stack", "zeros_like",
+           "ones_like", "full", "full_like", "empty_like", "expand_dims", "squeeze", "triu_indices", "tril_indices", "nonzero", "flatnonzero",
+           "bincount", "delete", "isin", "logical_and", "logical_or", "logical_not", "prod", "trace", "log", "mod", "remainder", "floor_divide",
+           "tile", "meshgrid", "indices", "swapaxes", "moveaxis", "atleast_1d", "atleast_2d", "broadcast_to", "negative", "absolute", "amax", "amin",
+           "argmax", "argmin", "linspace", "ravel", "reshape", "average", "median", "identity", "triu", "tril", "kron", "imag", "angle", "arctan",
+           "arcsin", "tan", "hypot", "cbrt", "log10", "log2", "exp2", "float_power", "searchsorted", "digitize", "histogram", "isfinite", "isnan",
+           "less", "less_equal", "greater", "greater_equal", "equal", "not_equal", "ix_", "roll", "flip", "cumprod", "nansum", "nanmean", "dstack",
+           "append", "insert", "partition", "lexsort", "select", "choose", "compress", "extract", "fmod", "divmod", "floor_divide"):
+    if hasattr(np, _n):
+        FUNCS.setdefault("numpy." + _n, getattr(np, _n))
+for _n in ("eigvalsh", "eigh", "eig", "eigvals", "det", "pinv", "matrix_power", "lstsq", "svd"):
+    FUNCS.setdefault("numpy.linalg." + _n, getattr(np.linalg, _n))
 try:        # optional: sparse adjacency forms
     import scipy.sparse as _sps
     FUNCS.update({"scipy.sparse.csr_matrix": _sps.csr_matrix, "scipy.sparse.coo_matrix": _sps.coo_matrix, "scipy.sparse.csc_matrix": _sps.csc_matrix})
 except Exception:  # noqa
     pass
 METHODS = {".sum", ".all", ".any", ".max", ".min", ".mean", ".std", ".ptp", ".argsort", ".astype", ".copy", ".tolist", ".item",
-           ".dot", ".transpose", ".round", ".nonzero", ".flatten", ".ravel", ".conj", ".reshape", ".argmax", ".argmin", ".prod", ".toarray", ".repeat", ".cumsum"}
+           ".dot", ".transpose", ".round", ".nonzero", ".flatten", ".ravel", ".conj", ".reshape", ".argmax", ".argmin", ".prod", ".toarray", ".repeat", ".cumsum",
+           ".squeeze", ".swapaxes", ".take", ".clip", ".trace", ".diagonal", ".conjugate", ".cumprod", ".searchsorted", ".argpartition", ".compress", ".todense", ".multiply"}
 
 
 def ev(t: Term, env: Dict[Term, Any]) -> Any:
